@@ -8,6 +8,8 @@ from absint import (
 from domains import Lin, bits_dep_all, bits_const
 
 ISIZE_MAX = (1 << 63) - 1
+# whether an iterator is exhausted depends on the iteration count: an implicit free variable of the loop
+ITER = frozenset({("iter", 0)})
 
 
 class Program:
@@ -297,10 +299,13 @@ def m_range_next(inclusive):
         if len(ints) >= 2 and M.int_type(inner):
             lo, hi = ints[0], ints[1]
             top = hi.hi if inclusive else hi.hi - 1
-            pv = IntV.top(inner, d | lo.deps() | hi.deps(), lo.lo, max(top, lo.lo))
+            ex = lo.is_const() and hi.exact
+            pv = IntV.top(inner, d | lo.deps() | hi.deps(), lo.lo, max(top, lo.lo), exact=ex)
+            if ex:
+                pv = IntV(pv.ty, pv.bits, pv.lo, pv.hi, None, True, hi.lineage, full=hi.full)
         elif M.int_type(inner):
             pv = IntV.top(inner, d)
-        return EnumV("Option", None, (), 2, d, {0: (), 1: (pv,)})
+        return EnumV("Option", None, (), 2, ITER, {0: (), 1: (pv,)})
     return f
 
 
@@ -310,7 +315,7 @@ def m_range_incl_new(I, st, args, dest_ty, *r):
 
 def m_bytes_next(I, st, args, dest_ty, *r):
     d = _deps(I, st, args)
-    return EnumV("Option", None, (), 2, d, {0: (), 1: (IntV.top("u8", d, exact=True),)})
+    return EnumV("Option", None, (), 2, ITER, {0: (), 1: (IntV.top("u8", d, exact=True),)})
 
 
 def m_enumerate_next(I, st, args, dest_ty, *r):
@@ -320,14 +325,14 @@ def m_enumerate_next(I, st, args, dest_ty, *r):
     t2 = inner.strip("()").split(",", 1)[1].strip() if "," in inner else "?"
     item = IntV.top(t2, d, exact=True) if M.int_type(t2) else TopV(t2, d)
     pv = AggV("tuple", [IntV.top("usize", d, 0, ISIZE_MAX, exact=True), item])
-    return EnumV("Option", None, (), 2, d, {0: (), 1: (pv,)})
+    return EnumV("Option", None, (), 2, ITER, {0: (), 1: (pv,)})
 
 
 def m_iter_next_top(I, st, args, dest_ty, *r):
     d = _deps(I, st, args)
     inner = _option_inner(dest_ty)
     pv = IntV.top(inner, d) if M.int_type(inner) else TopV(inner, d)
-    return EnumV("Option", None, (), 2, d, {0: (), 1: (pv,)})
+    return EnumV("Option", None, (), 2, ITER, {0: (), 1: (pv,)})
 
 
 def m_vec_pop(I, st, args, dest_ty, *r):
